@@ -23,6 +23,9 @@ type (
 	MapLit   struct {
 		Keys []Expr // string-valued expressions (usually StrLit)
 		Vals []Expr
+		// Typed: spelled map[string]int64{...} (int values only; the generator uses it where
+		// only the evaluation of the operands and the length are observed)
+		Typed bool
 	}
 	Unary struct {
 		Op string
@@ -403,6 +406,9 @@ func (p *printer) expr(e Expr) {
 		p.exprs(e.Elems)
 		p.b.WriteString("]")
 	case *MapLit:
+		if e.Typed {
+			p.b.WriteString("map[string]int64")
+		}
 		p.b.WriteString("{")
 		for i := range e.Keys {
 			if i > 0 {
